@@ -4,7 +4,13 @@ from typing import List, Optional, Tuple
 
 import libcst as cst
 from libcst._position import CodeRange
-from libcst.metadata import ParentNodeProvider, ScopeProvider
+from libcst import matchers
+from libcst.metadata import (
+    ClassScope,
+    FunctionScope,
+    ParentNodeProvider,
+    ScopeProvider,
+)
 
 from codemodder.codemods.utils_mixin import NameResolutionMixin
 from core_codemods.api import Metadata, Reference, ReviewGuidance, SimpleCodemod
@@ -80,15 +86,37 @@ class UseWalrusIf(SimpleCodemod, NameResolutionMixin):
                 return test
         return None
 
-    def _single_access(self, original_node: cst.IfExp) -> bool:
+    def _tested_name(self, original_node: cst.If) -> cst.Name:
         match original_node.test:
             case cst.Name():
-                access = self.find_accesses(original_node.test)
+                return original_node.test
             case cst.UnaryOperation():
-                access = self.find_accesses(original_node.test.expression)
+                return original_node.test.expression
             case _:
-                access = self.find_accesses(original_node.test.left)
-        return len(access) == 1
+                return original_node.test.left
+
+    def _single_access(self, original_node: cst.IfExp) -> bool:
+        return len(self.find_accesses(self._tested_name(original_node))) == 1
+
+    def _is_local_variable(self, name: cst.Name) -> bool:
+        """
+        Whether every use of the variable is among the accesses of its own scope.
+        A name declared `global` or `nonlocal` in a function is used outside of it,
+        and a name assigned in a class body is an attribute of the class.
+        """
+        scope = self.get_metadata(ScopeProvider, name, None)
+        if isinstance(scope, ClassScope):
+            return False
+        if not isinstance(scope, FunctionScope):
+            return True
+        declared_elsewhere = {
+            item.name.value
+            for statement in matchers.findall(
+                scope.node, matchers.Global() | matchers.Nonlocal()
+            )
+            for item in statement.names
+        }
+        return name.value not in declared_elsewhere
 
     def on_visit(self, node: cst.CSTNode) -> Optional[bool]:
         if len(node.children) < 2:
@@ -148,7 +176,10 @@ class UseWalrusIf(SimpleCodemod, NameResolutionMixin):
             # In this case, do not use a walrus named expr to prevent unused variable warnings.
             # Instead, move the variable's rhs directly into the if statement.
             new_expression = (
-                named_expr.value if self._single_access(original_node) else named_expr
+                named_expr.value
+                if self._single_access(original_node)
+                and self._is_local_variable(self._tested_name(original_node))
+                else named_expr
             )
 
             match updated_node.test:
